@@ -48,7 +48,35 @@ func Isomorphic(a, b []*Statement, decomp bool, h hash.Hash) bool {
 			return false
 		}
 	}
+
+	// Equal hash multisets are necessary but not sufficient:
+	// the datasets are isomorphic when they are equal after
+	// relabelling the blank nodes with their canonical hashes.
+	ar := relabelled(a, ah)
+	br := relabelled(b, bh)
+	for i, s := range ar {
+		if s != br[i] {
+			return false
+		}
+	}
 	return true
+}
+
+// relabelled returns the sorted N-Quad forms of the statements with
+// each blank node label replaced by the node's hash.
+func relabelled(statements []*Statement, hashes map[string][]byte) []string {
+	label := func(t Term) string {
+		if isBlank(t.Value) {
+			return fmt.Sprintf("_:%x", hashes[t.Value])
+		}
+		return t.Value
+	}
+	dst := make([]string, len(statements))
+	for i, s := range statements {
+		dst[i] = label(s.Subject) + " " + label(s.Predicate) + " " + label(s.Object) + " " + label(s.Label)
+	}
+	sort.Strings(dst)
+	return dst
 }
 
 func lexicalHashes(dst [][]byte, hashes map[string][]byte) {
